@@ -5,8 +5,12 @@ the expression trees of C14Model.v; lemmas on the reduction passes (coq/C13Proof
 sources are compiled from the working tree; grammar-generated formulas (minimal parentheses, unary minus, functions,
 conditionals), token-level mutations of them and raw character strings are given to the real code (forked children: a
 crash is a violation) and to the extracted model: accept/reject must agree, values must agree, and on well-formed
-formulas the value must be the mathematically intended one (independent evaluation of the generating tree)."""
-import math, os
+formulas the value must be the mathematically intended one (independent evaluation of the generating tree).
+getCxxFormula: the C++ text emitted for every third generated formula (variables declared in a non-alphabetical order or
+registered while reading, with and without substitutions) is compiled (batched translation units) and must evaluate to
+getValue.  Three limitations of the pinned parser are findings with a patch each; the check probes the real code and
+runs the model variant (flags of C13Model.variant) and the theorem files that match what it observes."""
+import math, os, random, re
 from vlib import guarded_main
 
 MATH = ["ExternalFunctionExpr.cxx", "ExternalFunctionExpr2.cxx", "DifferentiatedFunctionExpr.cxx", "Expr.cxx",
@@ -37,6 +41,11 @@ NUMS = [("2", 2.0), ("3", 3.0), ("0.5", 0.5), ("1.25", 1.25), ("1", 1.0), ("4", 
 
 
 # ------------------------------------------------------------------ intended semantics of a tree
+# smallest relative distance |a-b| met in a comparison (or |v| for H(v)) during the last evaluation: below 1e-9 the value of
+# the formula sits on a discontinuity and rounding decides (x*y/(y*x) == 1 ...): no intended floating-point value
+MARGIN = [float("inf")]
+
+
 def ev(e, env):
     k = e[0]
     if k == "num":
@@ -63,6 +72,10 @@ def ev(e, env):
             raise ValueError
         return r
     if k == "fun":
+        if e[1] == "H":
+            v = ev(e[2], env)
+            MARGIN[0] = min(MARGIN[0], abs(v))
+            return FUN1["H"](v)
         return FUN1[e[1]](ev(e[2], env))
     if k == "bfun":
         return FUN2[e[1]](ev(e[2], env), ev(e[3], env))
@@ -75,6 +88,7 @@ def evl(c, env):
     k = c[0]
     if k == "cmp":
         a, b = ev(c[2], env), ev(c[3], env)
+        MARGIN[0] = min(MARGIN[0], abs(a - b) / max(1.0, abs(a), abs(b)))
         return {"==": a == b, ">": a > b, ">=": a >= b, "<": a < b, "<=": a <= b}[c[1]]
     if k == "and":
         return evl(c[1], env) and evl(c[2], env)
@@ -182,8 +196,12 @@ def join(tl, rng):
 
 
 class Gen:
-    def __init__(self, rng):
+    def __init__(self, rng, fx=None):
         self.r = rng
+        # which of the three parser limitations are repaired in the tree under test (probed by main): the generator
+        # only produces the corresponding forms when they are supported; with all flags off the corpus is the one of
+        # the pinned tree (no extra random draw)
+        self.fx = fx or {"lpar": False, "nested": False, "orp": False}
 
     def leaf(self):
         if self.r.random() < 0.55:
@@ -195,6 +213,9 @@ class Gen:
         r = self.r
         if d <= 0 or r.random() < 0.15:
             return self.leaf()
+        if self.fx["nested"] and d >= 2 and r.random() < 0.07:
+            # a conditional as a sub-expression (printed in parentheses, or bare as a function argument)
+            return ("cond", self.lexpr(max(1, d - 2)), self.expr(d - 2), self.expr(d - 2))
         k = r.random()
         if k < 0.62:
             o = r.choice(["+", "-", "*", "/", "+", "-", "*", "/", "**"])
@@ -214,12 +235,17 @@ class Gen:
 
     def cmp(self, d):
         a = self.expr(d)
-        while toks(a, 1, True)[0] == "(":   # see unit cases: a condition that begins with '(' is a separate finding
+        while not self.fx["lpar"] and toks(a, 1, True)[0] == "(":   # a condition that begins with '(' is a finding of the pinned tree
             a = self.expr(max(0, d - 1))
         return ("cmp", self.r.choice(["==", ">", ">=", "<", "<="]), a, self.expr(d))
 
     def lexpr(self, d):
         r = self.r
+        if self.fx["orp"] and r.random() < 0.25:
+            # && and || mixed (C precedence, printed with the minimal parentheses)
+            a, b, c_ = self.cmp(d), self.cmp(d), self.cmp(d)
+            return r.choice([("or", a, ("and", b, c_)), ("or", ("and", a, b), c_), ("and", ("or", a, b), c_),
+                             ("and", a, ("or", b, c_)), ("or", ("and", a, b), ("and", c_, self.cmp(d)))])
         k = r.random()
         if k < 0.6:
             return self.cmp(d)
@@ -272,6 +298,39 @@ UNIT_MALFORMED = ["", "+", "x+", "*x", "x**", "(x", "x)", "()", "x y", "2 3", "x
                   "-", "--x", "x+*y", ",", "x,y", "2x", "x(2)", "1e", "1.2.3", "x>1 ? 1 : 2 : 3", "(x>1) ? 1", "!"]
 
 
+# getCxxFormula unit cases: (formula, declaration order of the variables or "-" = registered while reading, substitution map?)
+UNIT_CXX = [("y-x", "-", "-"), ("z/x", "-", "m"), ("y-x*z", "zyx", "m"), ("x>y ? 2*y : x-1", "yxz", "m"),
+            ("x**2+y**-3+z**0.5+x**17+x**y", "zxy", "m"), ("power<3>(x)+power<1>(y)+power<0>(z)", "yzx", "-"),
+            ("H(x-1)+ln(y)+abs(-z)+max(x,y)-min(y,z)+hypot(x,y)+atan2(y,x)", "yzx", "m"),
+            ("!x>1 && y>1 ? exp2(x)+cbrt(y) : log1p(z)+erfc(x)", "zxy", "-"), ("Cste::R*x-z", "zyx", "m"),
+            ("1.5e1*y+2.E0*x+1e+1", "yxz", "-"),
+            ("1/2*x", "xyz", "-"), ("x*1/2", "zxy", "m"), ("2/3+y", "-", "-"), ("x+2**3", "yxz", "-")]
+CXX_INT_UNITS = ("1/2*x", "x*1/2", "2/3+y", "x+2**3")   # an integer literal is emitted as it is written: integer division in C++
+
+
+def cxx_floating(text):
+    """the emitted C++ text with its integer literals made floating-point literals (diagnosis of a mismatch)"""
+    def f(m):
+        return m.group(0) + "." if re.fullmatch(r"\d+", m.group(0)) else m.group(0)
+    return re.sub(r"(?<![\w.<])(?<!<-)\d+\.?\d*(?:[eE][+-]?\d+)?", f, text)
+
+
+CXX_PRELUDE = """// generated by props/C13/check.py: the C++ formulas emitted by Evaluator::getCxxFormula, compiled as they are
+#include <cmath>
+#include <cstdio>
+#include <algorithm>
+#include "TFEL/Math/power.hxx"
+namespace c13f {
+  using namespace std;
+  // names of the formula language that are not C++ library functions (Evaluator::Heavyside, Evaluator::max/min, ln, abs = fabs)
+  [[maybe_unused]] static double H(const double x) { return x < 0 ? 0. : 1.; }
+  [[maybe_unused]] static double ln(const double x) { return std::log(x); }
+  [[maybe_unused]] static double abs(const double x) { return std::fabs(x); }
+  [[maybe_unused]] static double max(const double a, const double b) { return std::max(a, b); }
+  [[maybe_unused]] static double min(const double a, const double b) { return std::min(a, b); }
+"""
+
+
 def fnum(s):
     try:
         return float(s)
@@ -287,21 +346,41 @@ def main(c):
                          'Extraction "c13_model.ml" eval evall parse reduce.\n', "drv.ml")
     c.log("model extracted")
     rng = c.rng
-    g = Gen(rng)
-    cases = []   # dict(id, kind, text, tokens|None, point, intended|None)
     pts0 = [(2.0, 3.0, 0.5), (0.75, 1.25, 6.0), (4.0, 0.5, 0.25)]
+    # ---- which of the three parser limitations (findings with a patch each) does the tree under test have?
+    probes = [("lpar", "(x+1)*2>3 ? 1 : 0", pts0[0], 1.0), ("nested", "2*(sin(x)>0 ? 1 : 2)", pts0[0], 2.0),
+              ("orp", "x>3 || y>2 && z>5 ? 1 : 0", pts0[2], 1.0)]
+    rc, out, err = c.run([exe], input="".join("%d\t%s\tV\t%s\n" % (i, f, ",".join(repr(v) for v in p))
+                                              for i, (_, f, p, _) in enumerate(probes)), timeout=300)
+    fx = {}
+    for l in out.splitlines():
+        t = l.split()
+        if len(t) >= 4 and t[0] == "R" and t[2] == "OK":
+            n, _, _, want = probes[int(t[1])]
+            fx[n] = abs(fnum(t[3]) - want) < 1e-12
+    fx = {n: fx.get(n, False) for n, _, _, _ in probes}
+    c.notes.append("parser variant observed on the real code: conditions beginning with '(' %s; conditionals inside parentheses after a ')' %s; "
+                   "'||' binds %s than '&&'" % ("accepted" if fx["lpar"] else "rejected (finding)", "accepted" if fx["nested"] else "rejected (finding)",
+                                                "looser" if fx["orp"] else "TIGHTER (finding)"))
+    c.coverage["parser_variant"] = fx
+    g = Gen(rng, fx)
+    rng_cxx = random.Random(c.seed + 13)   # choices that concern getCxxFormula only (the main corpus does not depend on them)
+    cases = []   # dict(id, kind, text, tokens|None, point, intended|None)
 
-    def add(kind, text, tokens, p, intended=None, mode="V"):
-        cases.append({"id": len(cases), "kind": kind, "text": text, "tokens": tokens, "p": p, "intended": intended, "mode": mode})
+    def add(kind, text, tokens, p, intended=None, mode="V", cxx=None):
+        cases.append({"id": len(cases), "kind": kind, "text": text, "tokens": tokens, "p": p, "intended": intended, "mode": mode, "cxx": cxx})
 
     for (f, fn) in UNIT_WELLFORMED:
         for p in pts0:
             add("unit", f, None, p, fn(*p))
     for f in UNIT_ASIS:
         add("asis", f, None, pts0[0])
+    for (f, order, sub) in UNIT_CXX:
+        add("cxxunit", f, None, pts0[0], None, "F", (order, sub))
     for f in UNIT_MALFORMED:
         add("malformed-unit", f, None, pts0[0])
     nform = c.pick(1500, 15000)
+    illcond = [0]
     for k in range(nform):
         d = rng.choice([1, 2, 3, 3, 4, 4, 5]) if c.quick() else rng.choice([2, 3, 4, 5, 6, 7, 8])
         e = g.root(d)
@@ -310,12 +389,19 @@ def main(c):
         for _ in range(2):
             p = g.point()
             try:
+                MARGIN[0] = float("inf")
                 v = ev(e, p)
                 if isinstance(v, complex) or not math.isfinite(v):
                     v = None
+                elif MARGIN[0] < 1e-9:
+                    v = None   # on a discontinuity (a comparison between values equal up to rounding): no intended value
+                    illcond[0] += 1
             except (ValueError, ZeroDivisionError, OverflowError):
                 v = None
             add("gen", text, tl, p, v, "C" if k % 5 == 0 else "V")
+            if k % 3 == 1 and _ == 0:
+                # getCxxFormula: declaration order of the variables not alphabetical, or variables registered while reading
+                add("gen", text, tl, p, v, "F", (rng_cxx.choice(["zxy", "yzx", "zyx", "yxz", "xzy", "-", "-"]), rng_cxx.choice(["m", "-"])))
         # token-level mutations of a well-formed formula: both sides must agree on reject/accept
         if k % 2 == 0 and len(tl) > 1:
             m = list(tl)
@@ -336,7 +422,9 @@ def main(c):
         n = rng.randrange(1, 14)
         add("garbage", "".join(rng.choice(alphabet) for _ in range(n)), None, pts0[0])
 
-    cin = "".join("%d\t%s\t%s\t%s\n" % (cs["id"], cs["text"], cs["mode"], ",".join(repr(v) for v in cs["p"])) for cs in cases)
+    cin = "".join("%d\t%s\t%s\t%s%s\n" % (cs["id"], cs["text"], cs["mode"], ",".join(repr(v) for v in cs["p"]),
+                                              "\t%s\t%s" % cs["cxx"] if cs["cxx"] else "") for cs in cases)
+    open(os.path.join(c.work, "corpus.tsv"), "w").write(cin)
     rc, out, err = c.run([exe], input=cin, timeout=1200)
     if rc != 0:
         c.report("driver", "the driver of the real evaluator failed (rc=%d): %s" % (rc, err[-400:]), {"stderr": err[-3000:]}, False)
@@ -353,7 +441,7 @@ def main(c):
     mcases = [cs for cs in cases if cs["kind"] != "garbage" and ":" + ":" not in cs["text"] and "power<" not in cs["text"]]
     min_ = "".join("%d\t%s\t%s\n" % (cs["id"], " ".join(cs["tokens"] if cs["tokens"] is not None else split_tokens(cs["text"])),
                                      ",".join(repr(v) for v in cs["p"])) for cs in mcases)
-    rc, mout, merr = c.run([ml], input=min_, timeout=1200)
+    rc, mout, merr = c.run([ml] + ["1" if fx[n] else "0" for n in ("nested", "lpar", "orp")], input=min_, timeout=1200)
     if rc != 0:
         c.report("model-driver", "the model driver failed: " + merr[-400:], {"stderr": merr[-3000:]}, False)
         return
@@ -365,12 +453,31 @@ def main(c):
     c.log("real code and model executed on %d cases" % len(cases))
 
     stats = {"wellformed_value_vs_intended": 0, "value_vs_model": 0, "rejected_both": 0, "accepted_both_mutated": 0,
-             "garbage_no_crash": 0, "skipped_domain": 0, "copy_resolve_checked": 0}
+             "garbage_no_crash": 0, "skipped_domain": 0, "copy_resolve_checked": 0, "cxx_formula_vs_getValue": 0,
+             "cxx_formula_integer_literal": 0, "rejected_constant_exponent_fails": 0}
     plusminus_crash = False
     nrep = [0]
+    cxxjobs = []   # (case, getValue, emitted C++ text, tolerance)
     for cs in cases:
         cid, kind, f, p = cs["id"], cs["kind"], cs["text"], cs["p"]
         r, m = R.get(cid), M.get(cid)
+        if r is not None and r[0] == "OKF":
+            # getCxxFormula case: the value of getValue is compared as for the other cases, the text is compiled below
+            vt = (r[1] if len(r) > 1 else "").split(" ", 1)
+            r = ["OK", vt[0]]
+            gv = fnum(vt[0])
+            if len(vt) == 2 and math.isfinite(gv):
+                sens = abs(fnum(m[2]) - fnum(m[1])) if (m and m[0] == "OK") else 0.0
+                tol = 1e-9 * max(1.0, abs(gv)) + 1e4 * sens
+                if math.isfinite(tol) and (tol <= 1e-4 * max(1.0, abs(gv)) or kind == "cxxunit"):
+                    cxxjobs.append((cs, gv, vt[1], tol))
+            if kind == "cxxunit":
+                c.count(1, (kind, f), True)
+                continue
+        elif kind == "cxxunit":
+            c.report("cxxunit:" + f, "getCxxFormula unit case '%s' (variables %s): %s" % (f, cs["cxx"][0], " ".join(r or ["no result"])[:300]),
+                     {"formula": f, "cxx": r}, True)
+            continue
         pt = dict(zip(VARS, p))
         rep = {"formula": f, "kind": kind, "point": pt, "cxx": r, "model": m, "tokens": cs["tokens"],
                "how": "props/C13/driver.cxx: tfel::math::Evaluator ev({x,y,z}, formula); ev.getValue()"}
@@ -396,6 +503,13 @@ def main(c):
             stats["garbage_no_crash"] += 1
             continue
         cv = fnum(r[1]) if st == "OK" else float("nan")
+        if st == "REJECT" and m and m[0] == "OK" and m[-1] == "CE" and (
+                "throwInvalidCallException" in " ".join(r[1:]) or "second argument is too small" in " ".join(r[1:])):
+            # not a syntax error: TBinaryOperation::analyse evaluates a constant exponent when the formula is analysed, and
+            # that evaluation fails (domain / range error of a library function, division by zero); the model finds such an
+            # exponent in the tree that it builds (flag CE of props/C13/drv.ml)
+            stats["rejected_constant_exponent_fails"] += 1
+            continue
         if cs["mode"] == "C" and st == "OK":
             stats["copy_resolve_checked"] += 1
         # (1) the property itself on well-formed formulas: accepted, and the value is the intended one
@@ -445,20 +559,129 @@ def main(c):
                         if nrep[0] <= 12:
                             c.report("model:%s:%s" % (f, ",".join("%g" % v for v in p)),
                                      "formula '%s' at %s: the code evaluates %.15g, the model of its pipeline %.15g" % (f, pt, cv, mv), rep, True)
+    # ---- getCxxFormula: the emitted texts are compiled (batched) and evaluated at the same point
+    if cxxjobs:
+        nchunk = min(4, 1 + len(cxxjobs) // 1200)
+        nocompile = set()   # emitted texts that are not C++ (tfel::math::power<N> of an int expression: no such overload)
+
+        def write_sources():
+            srcs = []
+            for k in range(nchunk):
+                body = [CXX_PRELUDE]
+                calls = []
+                for (cs, gv, text, tol) in cxxjobs[k::nchunk]:
+                    for tag, t in (("f", text), ("g", cxx_floating(text))):
+                        if tag == "g" and t == text:
+                            continue
+                        if tag == "f" and cs["id"] in nocompile:
+                            continue
+                        body.append("  [[maybe_unused]] static double %s_%d(const double x, const double y, const double z) {\n"
+                                    "    [[maybe_unused]] const double vx = x, vy = y, vz = z;\n    return %s;\n  }\n" % (tag, cs["id"], t))
+                        calls.append('  c13_call("%s", %d, c13f::%s_%d, %s);\n' % (tag.upper(), cs["id"], tag, cs["id"], ", ".join(repr(v) for v in cs["p"])))
+                body.append("}  // namespace c13f\nvoid c13_call(const char*, int, double (*)(double, double, double), double, double, double);\n"
+                            "void c13_chunk_%d() {\n%s}\n" % (k, "".join(calls)))
+                path = os.path.join(c.work, "cxxformula_%d.cxx" % k)
+                open(path, "w").write("".join(body))
+                srcs.append(path)
+            return srcs
+
+        for (cs, gv, text, tol) in cxxjobs:
+            if re.search(r"power<-?\d+>\(\d+\)", text):
+                nocompile.add(cs["id"])
+        srcs = write_sources()
+        path = os.path.join(c.work, "cxxformula_main.cxx")
+        open(path, "w").write(
+            "#include <csetjmp>\n#include <csignal>\n#include <cstdio>\n"
+            "// an integer division by zero in an emitted formula (SIGFPE) must not stop the run\n"
+            "static sigjmp_buf c13_jb;\nstatic void c13_fpe(int) { siglongjmp(c13_jb, 1); }\n"
+            "void c13_call(const char* tag, int id, double (*f)(double, double, double), double x, double y, double z) {\n"
+            "  if (sigsetjmp(c13_jb, 1) == 0) {\n    std::printf(\"%s %d %.17g\\n\", tag, id, f(x, y, z));\n  } else {\n"
+            "    std::printf(\"%s %d SIGFPE\\n\", tag, id);\n  }\n}\n" +
+            "".join("void c13_chunk_%d();\n" % k for k in range(nchunk)) + "int main() {\n  std::signal(SIGFPE, c13_fpe);\n" +
+            "".join("  c13_chunk_%d();\n" % k for k in range(nchunk)) + "  return 0;\n}\n")
+        byid = {cs["id"]: (cs, gv, text, tol) for (cs, gv, text, tol) in cxxjobs}
+        try:
+            try:
+                fexe = c.cxx("cxxformula", srcs + [path], [], flags=["-w"], opt="-O0")
+            except Exception:
+                # some emitted text is not C++: a syntax-only pass lists all the functions that do not compile; those built
+                # from the text as it is emitted (f_) are set aside (judged below), then the rest is built
+                for sp in srcs:
+                    rc_, out_, err_ = c.run(["g++"] + c.cxx_flags() + ["-w", "-fsyntax-only", "-fmax-errors=0", sp], timeout=900)
+                    nocompile.update(int(x) for x in re.findall(r"c13f::f_(\d+)\(", err_))
+                srcs = write_sources()
+                fexe = c.cxx("cxxformula", srcs + [path], [], flags=["-w"], opt="-O0")
+        except Exception as e:  # a text is not C++ even with floating-point literals: find the formula in the compiler message
+            msg = str(e)
+            mm = re.search(r"c13f::[fg]_(\d+)\(", msg)
+            cs = byid[int(mm.group(1))][0] if mm and int(mm.group(1)) in byid else None
+            c.report("cxxcompile:" + (cs["text"] if cs else "?"), "the text emitted by getCxxFormula%s does not compile: %s" % (
+                " for '%s' ('%s')" % (cs["text"], byid[cs["id"]][2]) if cs else "", msg[-600:]), {"stderr": msg[-3000:]}, cs is not None)
+            fexe = None
+        if fexe:
+            rc, fout, ferr = c.run([fexe], timeout=600)
+            FV = {}
+            for l in fout.splitlines():
+                t = l.split()
+                if len(t) == 3:
+                    FV[(t[0], int(t[1]))] = t[2]
+            if rc != 0:
+                c.report("cxxrun", "the program made of the emitted C++ formulas failed (rc=%d): %s" % (rc, ferr[-300:]), {"stderr": ferr[-2000:]}, False)
+            int_unit_seen = False
+            for (cs, gv, text, tol) in cxxjobs:
+                fs, gs = FV.get(("F", cs["id"])), FV.get(("G", cs["id"]))
+                f, kind = cs["text"], cs["kind"]
+                if cs["id"] in nocompile:
+                    fs = "NOT-C++"
+                if fs is None:
+                    continue
+                fv = fnum(fs)
+                if fs not in ("SIGFPE", "NOT-C++") and not math.isfinite(fv):
+                    continue
+                stats["cxx_formula_vs_getValue"] += 1
+                if math.isfinite(fv) and abs(fv - gv) <= tol:
+                    continue
+                rep = {"formula": f, "variables_declared": cs["cxx"][0], "substitutions": cs["cxx"][1], "point": dict(zip(VARS, cs["p"])),
+                       "getCxxFormula": text, "compiled_value": fs, "getValue": gv,
+                       "how": "props/C13/driver.cxx mode F: Evaluator(vars in that order, formula), setVariableValue by name, getValue, getCxxFormula(map); "
+                              "the text compiled as the body of double f(double x,double y,double z) with vx=x, vy=y, vz=z"}
+                gfv = fnum(gs) if gs is not None else float("nan")
+                if math.isfinite(gfv) and abs(gfv - gv) <= tol:
+                    # the only difference: integer literals are emitted as they were written (int arithmetic in C++)
+                    stats["cxx_formula_integer_literal"] += 1
+                    if kind == "cxxunit" or not int_unit_seen:
+                        int_unit_seen = int_unit_seen or (kind == "cxxunit" and f in CXX_INT_UNITS)
+                        c.report("cxxint:" + f, "getCxxFormula of '%s' is '%s': as C++ it %s (integer literals are emitted as they are written: int arithmetic), "
+                                 "getValue gives %.15g" % (f, text, {"SIGFPE": "divides by zero (SIGFPE)", "NOT-C++": "does not compile (tfel::math::power<N> of an int)"}.get(
+                                     fs, "evaluates to %s" % fs), gv), rep, True)
+                    continue
+                nrep[0] += 1
+                if nrep[0] <= 12 or kind == "cxxunit":
+                    c.report("cxx:%s:%s" % (f, cs["cxx"][0]), "getCxxFormula of '%s' (variables declared %s) is '%s': %s at %s, getValue gives %.15g"
+                             % (f, cs["cxx"][0] if cs["cxx"][0] != "-" else "while reading", text,
+                                "it is not C++ (does not compile)" if fs == "NOT-C++" else "compiled, it evaluates to %s" % fs, dict(zip(VARS, cs["p"])), gv), rep, True)
     c.log("comparison done: %s" % stats)
+    stats["no_intended_value_on_discontinuity"] = illcond[0]
     c.coverage.update({"comparisons": stats, "generated_formulas": nform})
     c.notes.append("conventions of the code kept as they are (compared with the model only): ** associates to the left (2**3**2 = 64)")
     c.coverage["rule"] = ("unit formulas (operator precedence pairs, unary minus placements, functions, conditionals, logical operators, number "
                           "spellings, constants, power<N>), grammar-generated trees printed with the minimal parentheses of the standard "
                           "precedence at 2 points each (depth <= %d), one token-level mutation (delete/insert/swap) for every second formula, "
                           "hand-written malformed formulas, random character strings (crash detection only); a value comparison counts when "
-                          "both sides are finite and well conditioned" % c.pick(5, 8))
+                          "both sides are finite and well conditioned; getCxxFormula: unit cases and every third generated formula with the variables declared "
+                          "in a non-alphabetical order or registered while reading, with/without substitutions, the emitted text compiled and compared with getValue" % c.pick(5, 8))
     c.trusted("props/C13/driver.cxx (Evaluator, getValue, copy constructor, resolveDependencies of the sources compiled from the working tree)",
-              "props/C13/drv.ml: classification of token texts into the model's tokens (numbers to exact rationals), OCaml float operations record",
+              "props/C13/drv.ml: classification of token texts into the model's tokens (numbers to exact rationals), OCaml float operations record "
+              "(C library functions), detection of constant exponents whose evaluation fails",
+              "the harness around the compiled getCxxFormula texts: H, ln, abs, max, min defined in namespace c13f as in Evaluator.cxx, TFEL/Math/power.hxx of "
+              "the tree under test, g++ -O0, SIGFPE guard",
               "check.py: printer of a tree with minimal parentheses and its independent evaluation (intended value)",
               "the lexer EvaluatorBase::splitAtTokenSeperator is not modelled: it is exercised through the formula text (random blanks, number "
               "spellings) and by random character strings")
-    res = c.coq([C14MODEL, "C13Model.v", "C13Proofs.v", "Properties_C13.v"], timeout=900)
+    # theorem files: the general ones, and for each of the three limitations the positive statement (repaired tree) or
+    # the refutation (pinned tree), according to what was observed on the real code
+    variant_files = ["Properties_C13_%s%s.v" % (n, "" if fx[n] else "_finding") for n in ("lpar", "nested", "orp")]
+    res = c.coq([C14MODEL, "C13Model.v", "C13Proofs.v", "C13ParsePrint.v", "Properties_C13.v"] + variant_files, timeout=900)
     if not res.ok:
         c.coq_failures(res)
 
